@@ -36,10 +36,14 @@ Core(pos, m, dis, x) ==
 SanCore(pos, L, m) == Core(pos, m, MinimalDisambiguation(pos, L, m), "x")
 San(pos, L, m) == SanCore(pos, L, m) \o CheckSuffix(pos, m)
 
-\* every spelling a lenient reader might accept for m: any disambiguation level, capture mark optional
+\* every spelling a lenient reader might accept for m: any disambiguation level, capture mark optional; for pawns the
+\* source file may be given or left out whether or not the move captures ("bb3", "g8=N" for hxg8=N)
 LooseForms(pos, m) ==
-  {Core(pos, m, d, x) : d \in {"", FileNames[FileOf(m.from) + 1], RankNames[RankOf(m.from) + 1], SqName[m.from]},
-                        x \in {"x", ""}}
+  IF KindOf(pos.bd[m.from]) = 1 /\ m.kind # "castle"
+  THEN {f \o x \o SqName[m.to] \o (IF m.promo # 0 THEN "=" \o KindLetter[m.promo] ELSE "") :
+          f \in {"", FileNames[FileOf(m.from) + 1]}, x \in {"x", ""}}
+  ELSE {Core(pos, m, d, x) : d \in {"", FileNames[FileOf(m.from) + 1], RankNames[RankOf(m.from) + 1], SqName[m.from]},
+                            x \in {"x", ""}}
 
 \* strip trailing !/? marks, then one + or #
 RECURSIVE StripMarks(_)
